@@ -68,7 +68,8 @@ TRUSTED = [
 RULE = (
     "script = history (linear or branched, 1-4 revisions, 35% of the branched ones with depends_on) x bodies (0-4 DDL/DML statements in "
     "plain/autocommit segments, downgrade undoes upgrade) x command (upgrade/downgrade from a reachable state); for every script: every "
-    "config in {pysqlite,recipe} x transactional_ddl{default,True} x transaction_per_migration x external-transaction{no,yes}, and EVERY "
+    "config in {pysqlite,recipe} x transactional_ddl{default,True} x transaction_per_migration (passed as False/True or as 0/1, "
+    "alternating) x external-transaction{no,yes}, and EVERY "
     "failure position (k, pos) of the plan (before/between/after each statement, around autocommit blocks, inside and after the version "
     "update), each position with an Exception AND with a BaseException that is not an Exception (KeyboardInterrupt / SystemExit / custom "
     "BaseException, round robin; all four kinds for the fixed scripts on the recipe engine without external transaction), on the in-process path and on the command.upgrade/downgrade "
@@ -119,6 +120,12 @@ def shape_ok(config, shape, default_tddl=False):
         return True
     tddl = config.get("tddl") if config.get("tddl") is not None else default_tddl
     return not config.get("external") and (not tddl or bool(config.get("perMig")))
+
+
+def with_pm_spelling(configs, offset):
+    """transaction_per_migration is passed as a bool or as its int spelling 0 / 1 (deterministic alternation that gives both
+    spellings to both truth values within one config list; the model and the spec only see the truth value)"""
+    return [dict(c, pm_int=(j + j // 2 + offset) % 2 == 0) if c is not None else c for j, c in enumerate(configs)]
 
 
 def with_shapes(configs, offset):
@@ -277,7 +284,7 @@ def script_cases(ctx, script, configs, runner="inprocess", cfg_obj=None, scratch
             cobj.set_main_option("sqlalchemy.url", "sqlite:///" + work)
             kw = None
             if patched:
-                kw = {"transaction_per_migration": bool(config["perMig"])}
+                kw = {"transaction_per_migration": oi.pm_value(config)}
                 if config.get("tddl") is not None:
                     kw["transactional_ddl"] = config["tddl"]
             res, orc = oi.run_command(cobj, script["bodies"], rev_index, script["cmd"], script["target"], config["engine"], fail,
@@ -330,6 +337,7 @@ def script_cases(ctx, script, configs, runner="inprocess", cfg_obj=None, scratch
             "shape": MODEL_SHAPE[config.get("shape", "stock")],
         }
         meta = {"runner": runner, "config": config, "script": script}
+        ctx.hist("transaction_per_migration spelling", "%r" % (oi.pm_value(config),))
         ctx.hist("env.py shape x runner", "%s / %s" % (config.get("shape", "stock"), runner))
         ref_fail = {"k": orc.step, "pos": orc.pos, "kind": "exception"} if self_fail else None
         yield dict(base_inp, fail=ref_fail), {"res": res, "final": fin, "eff": [orc.step, orc.pos] if res != "ok" else None}, meta
@@ -628,34 +636,36 @@ TWODB_SCRIPT = {
 }
 
 
-def settings_kw(st):
+def settings_kw(st, pm_int=False):
     kw = {}
     if st[0] is not None:
         kw["transactional_ddl"] = st[0]
-    if st[1]:
+    if pm_int:
+        kw["transaction_per_migration"] = int(bool(st[1]))  # 0 / 1, always passed
+    elif st[1]:
         kw["transaction_per_migration"] = True
     return kw
 
 
-def twodb_execute(scratch, cfg, script, rev_index, bases, engine_mode, calls, fail):
+def twodb_execute(scratch, cfg, script, rev_index, bases, engine_mode, calls, fail, pm_int=False):
     works = [os.path.join(scratch, "work_db%d.sqlite" % (i + 1)) for i in range(2)]
     for i, (b, w) in enumerate(zip(bases, works)):
         shutil.copyfile(b, w)
         cfg.set_main_option("db%d.url" % (i + 1), "sqlite:///" + w)
-    cfg.attributes["verif_databases"] = [("db%d" % (i + 1), settings_kw(st)) for i, st in enumerate(calls)]
+    cfg.attributes["verif_databases"] = [("db%d" % (i + 1), settings_kw(st, pm_int)) for i, st in enumerate(calls)]
     res, orc = oi.run_command(cfg, script["bodies"], rev_index, script["cmd"], script["target"], engine_mode, fail)
     return res, orc, [oi.observe(w, rev_index) for w in works]
 
 
-def twodb_cases(ctx, script, engine_mode, calls, scratch, cfg, bases, all_positions, kinds_for):
+def twodb_cases(ctx, script, engine_mode, calls, scratch, cfg, bases, all_positions, kinds_for, pm_int=False):
     hist = script["hist"]
     rev_index = {r["id"]: i for i, r in enumerate(hist)}
     parents = parents_of(hist, rev_index)
     db0 = [oi.observe(b, rev_index) for b in bases]
     names = ["db1", "db2"]
-    res, ref, fins = twodb_execute(scratch, cfg, script, rev_index, bases, engine_mode, calls, None)
+    res, ref, fins = twodb_execute(scratch, cfg, script, rev_index, bases, engine_mode, calls, None, pm_int)
     ctx.evaluation()
-    config = {"engine": engine_mode, "calls": [list(c) for c in calls], "template": "twodb"}
+    config = {"engine": engine_mode, "calls": [list(c) for c in calls], "template": "twodb", "pm_int": pm_int}
     if res != "ok" or ref.unparsed:
         ctx.disagree("online.reference", {"script": script, "runner": "twodb", "config": config}, {"res": res, "unparsed": ref.unparsed},
                      {"raised": False}, note="two-database run without injected failure raised")
@@ -691,7 +701,7 @@ def twodb_cases(ctx, script, engine_mode, calls, scratch, cfg, bases, all_positi
                 if not all_positions and not (e == 1 and k >= 1) and pos != 1:
                     continue  # quick: every position of the later migrations on the later database, a sample elsewhere
                 for kind in kinds_for(g, pos):
-                    res, orc, fins = twodb_execute(scratch, cfg, script, rev_index, bases, engine_mode, calls, (g, pos, kind))
+                    res, orc, fins = twodb_execute(scratch, cfg, script, rev_index, bases, engine_mode, calls, (g, pos, kind), pm_int)
                     ctx.evaluation()
                     if res == "ok":
                         ctx.disagree("online.run", {"script": script, "runner": "twodb", "config": config, "fail": [g, pos, kind]}, {"res": res}, {"raised": True})
@@ -735,7 +745,7 @@ def twodb_battery(ctx, pending, thorough):
                             kinds_for = lambda g, pos: ["exception"] + nonexc
                         else:
                             kinds_for = lambda g, pos, n=n: ["exception"] if (g + pos + n) % 3 else ["exception", nonexc[(g + pos + n) % 9 // 3]]
-                        for case in twodb_cases(ctx, script, engine_mode, (c1, c2), scratch, cfg, bases, thorough, kinds_for):
+                        for case in twodb_cases(ctx, script, engine_mode, (c1, c2), scratch, cfg, bases, thorough, kinds_for, pm_int=n % 2 == 1):
                             pending.append(case)
                             ctx.hist("steps", len(case[0]["plan"]))
                             ctx.hist("configure() pairs (own settings db1 -> db2)", "%s -> %s" % (c1, c2))
@@ -1048,6 +1058,7 @@ def run(ctx, n_scripts=None, rng_name="main"):
         ctx.note("thorough tier: additionally ALL %d scripts over the linear history a<-b whose bodies have <=2 statements "
                  "(each DDL or DML, plain or in an autocommit block), upgrade and downgrade, x 16 configurations x every "
                  "failure position: this small domain is enumerated exhaustively" % n_ex)
+    jobs = [(s_, with_pm_spelling(c_, n_) if isinstance(c_, list) else c_, r_) for n_, (s_, c_, r_) in enumerate(jobs)]
     run_jobs(ctx, jobs, pending)
     judge(ctx, pending)
     ctx.exhaustive = False
@@ -1128,7 +1139,8 @@ def replay(ctx, case):
             bases = [prepare_base(scratch, script, rev_index, "base_db%d.sqlite" % (i + 1)) for i in range(2)]
             cfg = oi.make_twodb_dir(scratch, script["hist"])
             f = tuple(multi["fail"]) if multi.get("fail") else None
-            res, orc, fins = twodb_execute(scratch, cfg, script, rev_index, bases, config["engine"], [tuple(c) for c in config["calls"]], f)
+            res, orc, fins = twodb_execute(scratch, cfg, script, rev_index, bases, config["engine"], [tuple(c) for c in config["calls"]], f,
+                                           bool(config.get("pm_int")))
         fin = fins[multi["db"]]
         out["impl"] = {"res": res, "final_db1": fins[0], "final_db2": fins[1], "failed_at_global_step": [orc.step, orc.pos],
                        "flags_of_real_contexts_per_step": [st.get("seen") for st in orc.steps], "database_judged": multi["db"],
@@ -1165,7 +1177,7 @@ def replay(ctx, case):
             cfg_obj = oi.make_script_dir(scratch, script["hist"], base, patch_env=patched)
             kw = None
             if patched:
-                kw = {"transaction_per_migration": bool(config["perMig"])}
+                kw = {"transaction_per_migration": oi.pm_value(config)}
                 if config.get("tddl") is not None:
                     kw["transactional_ddl"] = config["tddl"]
             res, orc = oi.run_command(cfg_obj, script["bodies"], rev_index, script["cmd"], script["target"], config["engine"], fail,
